@@ -272,6 +272,215 @@ def o2_hash(chk, prog, qa, ta, qb, tb):
     chk.end(ob)
 
 
+# ------------------------------------------------------------------------------------------------ O3 server-side LRU
+from checks.serverfam import (fn, install_stats_noops, mk_server, lru, sfield, StreamV, Msg, flag_val, some as _some, none as _none,
+                              rstring, server_flags)
+from checks.c03 import srv_expect     # registers 'srv_expect'
+
+NAMES = ['s1', 's2', 's3']
+
+
+class RefCache:
+    """Reference LRU of statement names believed to exist on one server connection (least recent first)."""
+
+    def __init__(self, cap, names):
+        self.cap, self.names = cap, list(names)
+
+    def has(self, n):
+        if n in self.names:
+            self.names.remove(n)
+            self.names.append(n)      # using a statement makes it the most recently used
+            return True
+        return False
+
+    def add(self, n):
+        """returns the evicted name or None"""
+        if n in self.names:
+            self.names.remove(n)
+            self.names.append(n)
+            return None
+        ev = None
+        if len(self.names) >= self.cap:
+            ev = self.names.pop(0)
+        self.names.append(n)
+        return ev
+
+    def remove(self, n):
+        if n in self.names:
+            self.names.remove(n)
+
+
+def parse_bytes(name, query=b'SELECT 1'):
+    import struct
+    body = name.encode() + b'\0' + query + b'\0' + struct.pack('>h', 0)
+    return b'P' + struct.pack('>i', len(body) + 4) + body
+
+
+def close_bytes(name):
+    import struct
+    body = b'S' + name.encode() + b'\0'
+    return b'C' + struct.pack('>i', len(body) + 4) + body
+
+
+SYNC = b'S\x00\x00\x00\x04'
+ERR_BODY = b'SERROR\0C42601\0Msyntax error\0\0'
+
+
+def cache_names(ip, prog, srv):
+    c = sfield(prog, srv, 'prepared_statement_cache')
+    m = c.variants['Some'][0]
+    return [bytes(b.v for b in k.items).decode() for k, _ in m.entries]
+
+
+def queue_names(ip, prog, srv):
+    return [bytes(b.v for b in x.items).decode() for x in sfield(prog, srv, 'registering_prepared_statement').items]
+
+
+def o3_register(chk, prog, cap, pre_names, pre_steps):
+    """pre_steps: list of names first checked with has_prepared_statement (as earlier Binds of the same batch do)."""
+    name = 'O3-register-cap%d-[%s]-after-has[%s]' % (cap, ','.join(pre_names), ','.join(pre_steps))
+    ob = chk.begin(name, 'Server::register_prepared_statement on a connection whose statement cache (capacity %d) holds %r, after '
+                   'has_prepared_statement(%r): statement name (s1|s2|s3), should_send and the server answer (ParseComplete | '
+                   'ErrorResponse) chosen by the solver: bytes sent = [Parse][Close(evicted)]Sync as required, the least recently USED '
+                   'statement is the one evicted, a failed Parse is not remembered' % (cap, pre_names, pre_steps),
+                   {'capacity': cap, 'cache': list(pre_names), 'used_before': list(pre_steps)})
+    reg = fn(prog, 'Server::register_prepared_statement')
+    has = fn(prog, 'Server::has_prepared_statement')
+    dec = prog.lookup('<Parse as TryFrom<&BytesMut>>::try_from')[0]
+    ip = chk.interp(prog, name)
+    install_stats_noops(ip)
+
+    def harness(ip_):
+        which = ip_.choose(3, 'name')
+        send = bool(ip_.choose(2, 'send'))
+        answer_ok = bool(ip_.choose(2, 'answer'))
+        nm = NAMES[which]
+        ref = RefCache(cap, pre_names)
+        for h in pre_steps:
+            ref.has(h)
+        # reference outcome
+        written = b''
+        present = ref.has(nm)
+        evicted = None
+        want_err = False
+        if not present:
+            if send:
+                written += parse_bytes(nm)
+            evicted = ref.add(nm)
+            if evicted is not None:
+                written += close_bytes(evicted)
+            if written:
+                written += SYNC
+            if send and not answer_ok:
+                ref.remove(nm)
+                want_err = True
+        # scripted server answers for what the reference says is sent
+        reply = b''
+        if not present and written:
+            if send:
+                reply += (b'1\x00\x00\x00\x04' if answer_ok else b'E' + (len(ERR_BODY) + 4).to_bytes(4, 'big') + ERR_BODY)
+            if evicted is not None and (answer_ok or not send):
+                reply += b'3\x00\x00\x00\x04'
+            reply += b'Z\x00\x00\x00\x05I'
+        st = StreamV([BV(8, b) for b in reply], 'server')
+        srv = mk_server(ip_, prog, st, prepared_statement_cache=_some(ip_, lru(pre_names, cap)))
+        sp = Ptr(Cell(srv, 'server'))
+        pr = ip_.call_function(dec, [Ptr(Cell(Seq([BV(8, b) for b in parse_bytes(nm)], 'bytesmut'), 'pm'))])
+        parse = payload(pr, 'Ok')[0]
+        steps = [{'do': 'has_ps', 'name': h} for h in pre_steps] + [{'do': 'register_ps', 'parse_hex': parse_bytes(nm).hex(), 'send': send}]
+        try:
+            for h in pre_steps:
+                ip_.call_function(has, [sp, Ptr(Cell(Seq([BV(8, b) for b in h.encode()], 'str'), 'n'))])
+            r = ip_.drive(ip_.call_function(reg, [sp, Ptr(Cell(parse, 'parse')), BV(1, int(send))]))
+        except Panic as p:
+            raise Inconclusive('register_prepared_statement panic: ' + p.msg)
+        ob.nontrivial += 1
+        res = variant(ip_, r, 'Result')
+        got_written = bytes(b.v for b in st.out)
+        got_cache = cache_names(ip_, prog, srv)
+        problems = []
+        if got_written != written:
+            problems.append(('bytes-sent', 'bytes sent to the server %r, required %r' % (got_written, written)))
+        if (res == 'Err') != want_err:
+            problems.append(('result', 'returns %s, required %s' % (res, 'Err' if want_err else 'Ok')))
+        if sorted(got_cache) != sorted(ref.names):
+            problems.append(('cache-contents', 'statements believed to be on the server %r, required %r' % (sorted(got_cache), sorted(ref.names))))
+        elif got_cache != ref.names:
+            problems.append(('cache-recency', 'recency order %r, required %r' % (got_cache, ref.names)))
+        for k, what in problems:
+            chk.report(ob, 'C08/O3/register/' + k, 'register_prepared_statement(%s, send=%s, server %s) with cache %r (capacity %d) after using %r: %s'
+                       % (nm, send, 'accepts' if answer_ok else 'rejects', pre_names, cap, pre_steps, what),
+                       {'cache': list(pre_names), 'capacity': cap, 'used_before': list(pre_steps), 'name': nm, 'send': send, 'server_accepts': answer_ok},
+                       {'commands': [{'op': 'server_script', 'pre': {'ps_cache': {'cap': cap, 'names': list(pre_names)}},
+                                      'inbound_hex': reply.hex(), 'steps': steps}],
+                        'expect': ['srv_expect', {'steps': [{}] * len(pre_steps) + [{'err': want_err}], 'written_hex': written.hex(),
+                                                  'final': {'ps_cache': list(reversed(ref.names))}}]})
+        if len(ob.samples) < 3:
+            ob.samples.append({'name': nm, 'send': send, 'server_accepts': answer_ok, 'sent': got_written.hex(), 'cache_after': got_cache})
+    ip.explore(harness)
+    chk.absorb(ob, ip)
+    chk.end(ob)
+
+
+def o3_replies(chk, prog, queue, codes):
+    name = 'O3-replies-queue[%s]-%s' % (','.join(queue), ''.join(codes))
+    ob = chk.begin(name, 'Server::recv with statements %r awaiting their ParseComplete and the reply %s+Z: each ParseComplete retires the '
+                   'OLDEST pending statement, each ErrorResponse retires it AND forgets it' % (queue, ''.join(codes)),
+                   {'pending': list(queue), 'reply': list(codes)})
+    recv = fn(prog, 'Server::recv')
+    ip = chk.interp(prog, name)
+    install_stats_noops(ip)
+
+    def harness(ip_):
+        reply = b''
+        refq = list(queue)
+        refc = RefCache(4, queue)
+        for c in codes:
+            if c == '1':
+                reply += b'1\x00\x00\x00\x04'
+                if refq:
+                    refq.pop(0)
+            elif c == 'E':
+                reply += b'E' + (len(ERR_BODY) + 4).to_bytes(4, 'big') + ERR_BODY
+                if refq:
+                    refc.remove(refq.pop(0))
+            else:
+                reply += b'2\x00\x00\x00\x04'
+        reply += b'Z\x00\x00\x00\x05I'
+        st = StreamV([BV(8, b) for b in reply], 'server')
+        srv = mk_server(ip_, prog, st, prepared_statement_cache=_some(ip_, lru(queue, 4)),
+                        registering_prepared_statement=Seq([rstring(q) for q in queue], 'vecdeque'))
+        try:
+            ip_.drive(ip_.call_function(recv, [Ptr(Cell(srv, 'server')), _none(ip_)]))
+        except Panic as p:
+            raise Inconclusive('recv panic: ' + p.msg)
+        ob.nontrivial += 1
+        gq, gc = queue_names(ip_, prog, srv), cache_names(ip_, prog, srv)
+        if gq != refq or sorted(gc) != sorted(refc.names):
+            chk.report(ob, 'C08/O3/replies/%s' % ''.join(codes),
+                       'after the reply %s with %r pending: pending %r (required %r), remembered %r (required %r)'
+                       % (''.join(codes), queue, gq, refq, sorted(gc), sorted(refc.names)), {'pending': list(queue), 'reply': ''.join(codes)},
+                       {'commands': [{'op': 'server_script', 'pre': {'ps_cache': {'cap': 4, 'names': list(queue)}, 'registering': list(queue)},
+                                      'inbound_hex': reply.hex(), 'steps': [{'do': 'recv'}]}],
+                        'expect': ['c08_replies', refq, sorted(refc.names)]})
+        if not ob.samples:
+            ob.samples.append({'pending_after': gq, 'remembered_after': gc})
+    ip.explore(harness)
+    chk.absorb(ob, ip)
+    chk.end(ob)
+
+
+@expectation('c08_replies')
+def c08_replies(refq, refnames):
+    def f(res):
+        r = res[0]
+        if 'panic' in r:
+            return True, 'native panic: ' + r['panic']
+        gq, gc = r['final']['registering'], sorted(r['final']['ps_cache'] or [])
+        return (gq != refq or gc != refnames, 'native pending %r remembered %r; required %r / %r' % (gq, gc, refq, refnames))
+    return f
+
+
 def validate_translation(chk, prog):
     """The repo's own Bind vector (test_prepared_statements) and hand-made messages: interpreter vs native."""
     import struct
@@ -334,6 +543,13 @@ def main(chk):
     for qa, ta, qb, tb in itertools.product(range(0, qmax + 1), (0, 1, 2), range(0, qmax + 1), (0, 1, 2)):
         if (qa, ta) <= (qb, tb):
             tasks.append((o2_hash, (prog, qa, ta, qb, tb)))
+    for cap, pre in ((1, []), (1, ['s1']), (2, []), (2, ['s1']), (2, ['s1', 's2']), (2, ['s2', 's1'])):
+        tasks.append((o3_register, (prog, cap, pre, [])))
+    tasks.append((o3_register, (prog, 2, ['s1', 's2'], ['s1'])))
+    tasks.append((o3_register, (prog, 2, ['s1', 's2'], ['s2', 's1'])))
+    for q, codes in ((['s1'], ['1']), (['s1'], ['E']), (['s1', 's2'], ['1', 'E']), (['s1', 's2'], ['E', '1']), (['s1', 's2'], ['1', '1']),
+                     (['s1', 's2'], ['2', 'E']), ([], ['1']), (['s1', 's2', 's3'], ['1', 'E', '1'])):
+        tasks.append((o3_replies, (prog, q, codes)))
     chk.parallel(_dispatch, tasks)
 
 
